@@ -37,6 +37,9 @@ func coreC17(tier string) []RunSpec {
 	for k := 0; k < 6; k++ {
 		out = append(out, RunSpec{Profile: "core:failed-pending-melt-reclaimed-first", Params: map[string]int{"scenario": 7, "fee": k % 3, "mints": 1, "k": k}})
 	}
+	for k := 0; k < 6; k++ {
+		out = append(out, RunSpec{Profile: "core:reclaim-while-melt-pending", Params: map[string]int{"scenario": 9, "fee": k % 3, "mints": 1, "k": k}})
+	}
 	for k := 0; k < 4; k++ {
 		out = append(out, RunSpec{Profile: "core:melt-pending-past-expiry", Params: map[string]int{"scenario": 3, "fee": k % 3, "mints": 1, "k": k}})
 	}
@@ -188,6 +191,54 @@ func runC17(rc *RunCtx) {
 		ww.Settle()
 		ww.CheckWallets("settled")
 		rc.S.Probe("c17_reclaim_first_after_rotation")
+		rc.Nontrivial = true
+		return
+	}
+	if rc.P("scenario", 0) == 9 {
+		// a melt is pending AND a token nobody claimed is outstanding; the wallet reclaims while the melt
+		// is still in flight (only the token comes back, the melt's inputs stay pending); then the payment
+		// fails (k even) or succeeds (k odd) and the quote is checked
+		ww.step = 0
+		ww.W.LN.ForceNextPay = "pending"
+		ww.StepMelt()
+		ww.W.LN.ForceNextPay = ""
+		var melter string
+		for _, w := range ww.Wallets {
+			if len(ww.PendQ[w]) > 0 {
+				melter = w
+			}
+		}
+		if melter == "" {
+			return
+		}
+		mint := mintNameOfURL(ww.node(melter).Mint)
+		f := forcedSend{melter, 1 + ww.balanceAt(melter, mint)/4, false}
+		ww.forceSend = &f
+		ww.step++
+		ww.StepSend()
+		ww.forceSend = nil
+		ww.CheckWallets("step")
+		ww.step++
+		ww.op("w.reclaim remove=false")
+		ww.W.WalletOp(melter, ww.name("reclaim."+melter), nil, func(wl *wallet.Wallet) { wl.ReclaimUnspentProofs() })
+		for _, t := range ww.Tokens {
+			if t.From == melter && !t.Claimed {
+				t.Claimed = true // reclaimed by its sender: void
+			}
+		}
+		ww.CheckWallets("step")
+		for _, k := range ww.W.LN.InflightKeys() {
+			ww.W.LN.ResolveInflight(k, rc.P("k", 0)%2 == 1)
+		}
+		for _, qid := range ww.PendQ[melter] {
+			ww.step++
+			ww.op("w.checkmelt")
+			ww.W.WalletOp(melter, ww.name("chk."+melter), nil, func(wl *wallet.Wallet) { wl.CheckMeltQuoteState(qid) })
+			ww.CheckWallets("step")
+		}
+		ww.Settle()
+		ww.CheckWallets("settled")
+		rc.S.Probe("c17_reclaim_while_melt_pending")
 		rc.Nontrivial = true
 		return
 	}
